@@ -61,8 +61,10 @@ type refType struct {
 }
 
 type refInventory struct {
-	Funcs map[string]refFunc `json:"funcs"` // key: full name as go/ssa prints it
-	Types map[string]refType `json:"types"` // key: pkgpath.Type
+	Funcs   map[string]refFunc `json:"funcs"`   // key: full name as go/ssa prints it
+	Types   map[string]refType `json:"types"`   // key: pkgpath.Type
+	Globals map[string]string  `json:"globals"` // package-level variables: pkgpath.name -> type
+	GInit   map[string]string  `json:"ginit"`   // ... -> what the package initialiser stores into it (when it is one store)
 }
 
 type renameTable struct {
@@ -70,8 +72,11 @@ type renameTable struct {
 	funcByRef   map[string]*ssa.Function // reference full name -> current function
 	fieldAlias  map[*types.Var]string    // current field -> reference name
 	localAlias  map[*ssa.Alloc]string    // renamed local -> reference name
+	globalAlias map[*ssa.Global]string   // renamed package-level variable -> reference name
+	globalByRef map[string]*ssa.Global   // pkgpath.refname -> the variable
 	wrapFold    map[string][]wrapFold    // callee (as printed) -> reference wrappers that were inlined at their call sites
 	paramPerm   map[*ssa.Function][]int  // current parameter index -> reference index, for functions whose parameters were only reordered
+	paramRefN   map[*ssa.Function]int    // how many parameters the reference function has (further ones were added)
 	groupField  map[*types.Var]bool      // current field of a new struct type that only groups reference fields
 	typeNew2Old map[string]string        // "pkgpath.New" -> "pkgpath.Old"
 	typeOld2New map[string]string
@@ -107,7 +112,7 @@ func isNewHelperOrInside(f *ssa.Function) bool {
 	return isNewHelper(f)
 }
 
-var curRenames = &renameTable{funcAlias: map[*ssa.Function]string{}, funcByRef: map[string]*ssa.Function{}, fieldAlias: map[*types.Var]string{}, groupField: map[*types.Var]bool{}, paramPerm: map[*ssa.Function][]int{}, localAlias: map[*ssa.Alloc]string{}, wrapFold: map[string][]wrapFold{}, typeNew2Old: map[string]string{}, typeOld2New: map[string]string{}}
+var curRenames = &renameTable{funcAlias: map[*ssa.Function]string{}, funcByRef: map[string]*ssa.Function{}, fieldAlias: map[*types.Var]string{}, groupField: map[*types.Var]bool{}, paramPerm: map[*ssa.Function][]int{}, paramRefN: map[*ssa.Function]int{}, localAlias: map[*ssa.Alloc]string{}, globalAlias: map[*ssa.Global]string{}, globalByRef: map[string]*ssa.Global{}, wrapFold: map[string][]wrapFold{}, typeNew2Old: map[string]string{}, typeOld2New: map[string]string{}}
 
 func isIdentChar(c byte) bool {
 	return c == '_' || c >= '0' && c <= '9' || c >= 'a' && c <= 'z' || c >= 'A' && c <= 'Z'
@@ -252,7 +257,31 @@ func tokensInto(f *ssa.Function, set map[string]bool, depth int) {
 var tokenRefNames map[string]bool
 
 func buildInventory(P *Program) *refInventory {
-	inv := &refInventory{Funcs: map[string]refFunc{}, Types: map[string]refType{}}
+	inv := &refInventory{Funcs: map[string]refFunc{}, Types: map[string]refType{}, Globals: map[string]string{}, GInit: map[string]string{}}
+	for _, p := range P.SSA.AllPackages() {
+		if !strings.HasPrefix(p.Pkg.Path(), modPath) {
+			continue
+		}
+		for name, m := range p.Members {
+			if g, ok := m.(*ssa.Global); ok && !strings.HasPrefix(name, "init$") {
+				inv.Globals[p.Pkg.Path()+"."+name] = types.TypeString(g.Type(), func(q *types.Package) string { return q.Path() })
+				if init := p.Func("init"); init != nil {
+					n, val := 0, ""
+					for _, b := range init.Blocks {
+						for _, ins := range b.Instrs {
+							if st, ok := ins.(*ssa.Store); ok && st.Addr == ssa.Value(g) {
+								n++
+								val = describe(st.Val)
+							}
+						}
+					}
+					if n == 1 && len(val) < 400 {
+						inv.GInit[p.Pkg.Path()+"."+name] = val
+					}
+				}
+			}
+		}
+	}
 	for f := range P.AllFuncs {
 		if f.Parent() != nil || len(f.Blocks) == 0 || f.Synthetic != "" || !inModule(f) || f.Origin() != nil && f.Origin() != f {
 			continue
@@ -346,7 +375,7 @@ func jaccard(a, b []string) float64 {
 
 // loadRenames compares the analysed program with the reference inventory.
 func loadRenames(P *Program, path string) {
-	curRenames = &renameTable{funcAlias: map[*ssa.Function]string{}, funcByRef: map[string]*ssa.Function{}, fieldAlias: map[*types.Var]string{}, groupField: map[*types.Var]bool{}, paramPerm: map[*ssa.Function][]int{}, localAlias: map[*ssa.Alloc]string{}, wrapFold: map[string][]wrapFold{}, typeNew2Old: map[string]string{}, typeOld2New: map[string]string{}}
+	curRenames = &renameTable{funcAlias: map[*ssa.Function]string{}, funcByRef: map[string]*ssa.Function{}, fieldAlias: map[*types.Var]string{}, groupField: map[*types.Var]bool{}, paramPerm: map[*ssa.Function][]int{}, paramRefN: map[*ssa.Function]int{}, localAlias: map[*ssa.Alloc]string{}, globalAlias: map[*ssa.Global]string{}, globalByRef: map[string]*ssa.Global{}, wrapFold: map[string][]wrapFold{}, typeNew2Old: map[string]string{}, typeOld2New: map[string]string{}}
 	haveReference = false
 	curProgram = P
 	b, err := os.ReadFile(path)
@@ -514,48 +543,56 @@ func loadRenames(P *Program, path string) {
 		// every reference parameter type occurs once in both lists; parameters the reference does not have
 		// (added ones) come after the reference positions
 		perm := make([]int, len(cp))
+		for i := range perm {
+			perm[i] = -1
+		}
 		okPerm := true
 		used := map[int]bool{}
 		extra := len(rp)
-		count := func(l []string, t string) int {
-			n := 0
-			for _, x := range l {
-				if x == t {
-					n++
-				}
-			}
-			return n
-		}
+		// 1. by name and type
 		for i, ct := range cp {
-			at := -1
+			if i >= len(cf.PNames) || cf.PNames[i] == "" || cf.PNames[i] == "_" {
+				continue
+			}
 			for j, rt := range rp {
-				if rt == ct {
-					at = j
+				if !used[j] && rt == ct && j < len(rf.PNames) && rf.PNames[j] == cf.PNames[i] {
+					perm[i] = j
+					used[j] = true
+					break
 				}
 			}
-			// a type that occurs more than once on both sides: the parameter's name says which one it is
-			if at >= 0 && count(rp, ct) > 1 && count(rp, ct) == count(cp, ct) && i < len(cf.PNames) {
-				byName := -1
-				for j, rt := range rp {
-					if rt == ct && j < len(rf.PNames) && rf.PNames[j] == cf.PNames[i] && rf.PNames[j] != "" && rf.PNames[j] != "_" {
-						byName = j
-					}
+		}
+		// 2. by type, when one unused reference parameter and one unplaced current parameter have it
+		for i, ct := range cp {
+			if perm[i] >= 0 {
+				continue
+			}
+			var cand []int
+			for j, rt := range rp {
+				if !used[j] && rt == ct {
+					cand = append(cand, j)
 				}
-				if byName >= 0 && !used[byName] {
-					perm[i] = byName
-					used[byName] = true
-					continue
+			}
+			rivals := 0
+			for i2, ct2 := range cp {
+				if perm[i2] < 0 && ct2 == ct {
+					rivals++
 				}
 			}
 			switch {
-			case at >= 0 && count(rp, ct) == 1 && count(cp, ct) == 1:
-				perm[i] = at
-				used[at] = true
-			case at < 0:
-				perm[i] = extra
-				extra++
+			case len(cand) == 1 && rivals == 1:
+				perm[i] = cand[0]
+				used[cand[0]] = true
+			case len(cand) == 0:
+				// a parameter the reference does not have: placed after the reference positions (below)
 			default:
 				okPerm = false
+			}
+		}
+		for i := range cp {
+			if perm[i] < 0 {
+				perm[i] = extra
+				extra++
 			}
 		}
 		if len(used) != len(rp) {
@@ -563,6 +600,7 @@ func loadRenames(P *Program, path string) {
 		}
 		if okPerm {
 			t.paramPerm[curFn[k]] = perm
+			t.paramRefN[curFn[k]] = len(rp)
 			t.Notes = append(t.Notes, fmt.Sprintf("function %s has its parameters reordered or extended %v", shortenFull(k), perm))
 		}
 	}
@@ -601,11 +639,26 @@ func loadRenames(P *Program, path string) {
 			// ... or turned into a method (or back) and renamed at the same time: same flat signature, and the
 			// body must then speak for it (a higher similarity is asked for below)
 			convertedRenamed := cf.Name != rf.Name && rf.Flat != "" && mapTypes(cf.Flat) == rf.Flat && recv != rf.Recv
-			if !sameShape && !converted && !convertedRenamed {
+			// ... or made a method of a type it never used: the flat signature gains the receiver in front
+			addedRecv := false
+			if !sameShape && !converted && !convertedRenamed && rf.Recv == "" && cf.Recv != "" && rf.Flat != "" {
+				cp, cres := splitFlat(mapTypes(cf.Flat))
+				rp, rres := splitFlat(rf.Flat)
+				if cres == rres && len(cp) == len(rp)+1 && strings.Join(cp[1:], ",") == strings.Join(rp, ",") {
+					addedRecv = true
+				}
+			}
+			// ... or renamed together with a change of its parameter or result list, on the same receiver: only
+			// a near-identical body speaks for that
+			reshaped := !sameShape && !converted && !convertedRenamed && !addedRecv && recv == rf.Recv && cf.Name != rf.Name
+			if !sameShape && !converted && !convertedRenamed && !addedRecv && !reshaped {
 				continue
 			}
 			sc := jaccard(rf.Tokens, cf.Tokens)
-			if convertedRenamed && sc < 0.7 {
+			if reshaped && (sc < 0.85 || len(rf.Tokens) < 12) {
+				continue
+			}
+			if (convertedRenamed || addedRecv) && sc < 0.7 {
 				continue
 			}
 			if cf.Name == rf.Name && sameShape {
@@ -642,6 +695,20 @@ func loadRenames(P *Program, path string) {
 		if f := curFn[c.n]; f != nil {
 			t.funcAlias[f] = c.m
 			t.funcByRef[c.m] = f
+			// a receiver the reference function does not have comes after its parameters
+			if rf, cf := ref.Funcs[c.m], cur.Funcs[c.n]; rf.Recv == "" && cf.Recv != "" {
+				cp, _ := splitFlat(cf.Flat)
+				rp, _ := splitFlat(rf.Flat)
+				if len(cp) == len(rp)+1 && len(cp) == len(f.Params) {
+					perm := make([]int, len(cp))
+					perm[0] = len(rp)
+					for i := 1; i < len(cp); i++ {
+						perm[i] = i - 1
+					}
+					t.paramPerm[f] = perm
+					t.paramRefN[f] = len(rp)
+				}
+			}
 			if ref.Funcs[c.m].Name != cur.Funcs[c.n].Name {
 				t.Notes = append(t.Notes, fmt.Sprintf("func %s is %s renamed (body similarity %.2f)", shortenFull(c.n), shortenFull(c.m), c.score))
 			}
@@ -657,6 +724,77 @@ func loadRenames(P *Program, path string) {
 		}
 		t.wrapFold[rf.Wrap.Callee] = append(t.wrapFold[rf.Wrap.Callee], wrapFold{name: shortenFull(m), args: rf.Wrap.Args})
 		t.Notes = append(t.Notes, "func "+shortenFull(m)+" is gone; calls of the form "+rf.Wrap.Callee+"("+strings.Join(rf.Wrap.Args, ", ")+") read as calls of it")
+	}
+
+	// 3c. package-level variables: a reference name that is gone and a new name of the same package and type (one
+	// candidate each way) are the same variable
+	{
+		missing, added := map[string][]string{}, map[string][]string{} // pkg|type -> names
+		for k, typ := range ref.Globals {
+			if _, ok := cur.Globals[k]; !ok {
+				i := strings.LastIndex(k, ".")
+				missing[k[:i]+"|"+typ] = append(missing[k[:i]+"|"+typ], k)
+			}
+		}
+		for k, typ := range cur.Globals {
+			if _, ok := ref.Globals[k]; !ok {
+				i := strings.LastIndex(k, ".")
+				key := k[:i] + "|" + mapTypes(typ)
+				added[key] = append(added[key], k)
+			}
+		}
+		// several candidates of one type: the initialiser tells them apart
+		for key, ms := range missing {
+			as := added[key]
+			if len(ms) < 2 || len(as) < 2 {
+				continue
+			}
+			var pm, pa []string
+			for _, m := range ms {
+				for _, a := range as {
+					if ref.GInit[m] != "" && ref.GInit[m] == cur.GInit[a] {
+						nm, na := 0, 0
+						for _, m2 := range ms {
+							if ref.GInit[m2] == ref.GInit[m] {
+								nm++
+							}
+						}
+						for _, a2 := range as {
+							if cur.GInit[a2] == cur.GInit[a] {
+								na++
+							}
+						}
+						if nm == 1 && na == 1 {
+							pm, pa = append(pm, m), append(pa, a)
+						}
+					}
+				}
+			}
+			delete(missing, key)
+			delete(added, key)
+			for i := range pm {
+				missing[key+"|"+pm[i]] = []string{pm[i]}
+				added[key+"|"+pm[i]] = []string{pa[i]}
+			}
+		}
+		for key, ms := range missing {
+			as := added[key]
+			if len(ms) != 1 || len(as) != 1 {
+				continue
+			}
+			i := strings.LastIndex(as[0], ".")
+			for _, p := range P.SSA.AllPackages() {
+				if p.Pkg.Path() != as[0][:i] {
+					continue
+				}
+				if g, ok := p.Members[as[0][i+1:]].(*ssa.Global); ok {
+					old := ms[0][strings.LastIndex(ms[0], ".")+1:]
+					t.globalAlias[g] = old
+					t.globalByRef[ms[0]] = g
+					t.Notes = append(t.Notes, "variable "+shortenFull(as[0])+" is "+shortenFull(ms[0])+" renamed")
+				}
+			}
+		}
 	}
 
 	// 4. locals of functions the reference knows (under their own or an aliased name)
@@ -1126,4 +1264,12 @@ func paramNames(f *ssa.Function) []string {
 		out = append(out, p.Name())
 	}
 	return out
+}
+
+// refGlobal finds the package-level variable that has (or had, before a rename) the given name.
+func refGlobal(p *ssa.Package, name string) *ssa.Global {
+	if g, ok := p.Members[name].(*ssa.Global); ok {
+		return g
+	}
+	return curRenames.globalByRef[p.Pkg.Path()+"."+name]
 }
